@@ -84,3 +84,7 @@ classify = G.classify
 
 def nontrivial(case, obs):
     return case["kind"] == "writeseq" or bool(case.get("hit")) or case.get("stream") == "shape"
+
+
+def focus(changed):
+    G.set_focus(changed)
